@@ -1,7 +1,7 @@
 (* C05 -- Blob, enum, tuple, loop and entry-point shape rules are enforced.
    Only pinned statements, `exact`, Examples by vm_compute, and Print Assumptions. *)
 From Coq Require Import String List NArith ZArith PArith Bool FMapPositive.
-From Sylt Require Import Syntax.Resolved Types.TyGraph Types.Tc Types.Ctx Types.TcInv Types.Reject Types.Mismatch Types.Shapes.
+From Sylt Require Import Syntax.Resolved Types.TyGraph Types.Tc Types.Ctx Types.TcInv Types.Reject Types.Mismatch Types.Shapes Types.ShapesDecl.
 Import ListNotations.
 Local Open Scope string_scope.
 
@@ -53,6 +53,74 @@ Theorem C05_decl_stable : forall {A} (m : M A) s a s' i,
      exists name' sp' f' args', head s' i = Some (HEnum name' sp' f' args') /\ same_keys f f').
 Proof. intros A. exact (@TcInv.decl_stable A). Qed.
 
+(* ---- blob / enum / tuple rules.  The program's statements are in the order the compiler hands them to the
+   checker (declarations first): `pre ++ declaration :: mid ++ (a definition whose value contains the violation
+   at any position C) :: post`, for all pre, mid, post, C, every fuel and variable table. *)
+
+(* after `Name :: blob { ... }` the class of Name is a blob with exactly the declared field names, whatever the
+   declared field types and type parameters are; likewise for enums and externblobs *)
+Theorem C05_blob_established : forall kinds g R (PR : apres R) name var sp tvars fields external ctx s u s',
+  wf s -> outer_statement kinds (gfix g) R (SBlob name var sp tvars fields external) ctx s = Ok (u, s') ->
+  if external then decl_extern var s' else decl_blob var (map fst fields) s'.
+Proof. exact ShapesDecl.blob_established. Qed.
+
+Theorem C05_enum_established : forall kinds g R (PR : apres R) name var sp tvars variants ctx s u s',
+  wf s -> outer_statement kinds (gfix g) R (SEnum name var sp tvars variants) ctx s = Ok (u, s') ->
+  decl_enum var (map fst variants) s'.
+Proof. exact ShapesDecl.enum_established. Qed.
+
+(* instantiating a blob with a missing or an unknown field *)
+Theorem C05_blob_instance_shape_rejected : forall name v sp tvars bfields fields self isp,
+  bad_fields (map fst bfields) (map fst fields) ->
+  forall pre mid post dname dvar dkind dty (C : ectx) dsp sp0 fuel vars,
+    typecheck fuel (mkResolved vars
+      (pre ++ SBlob name v sp tvars bfields false :: mid ++
+       SDefinition dname dvar dkind dty (plug_e (EBlob v fields self isp) (SStatementExpression (EBlob v fields self isp) sp0) C) dsp :: post))
+    <> Ok tt.
+Proof. exact ShapesDecl.blob_instance_shape_rejected. Qed.
+
+(* instantiating an externblob *)
+Theorem C05_extern_instance_rejected : forall name v sp tvars bfields fields self isp,
+  forall pre mid post dname dvar dkind dty (C : ectx) dsp sp0 fuel vars,
+    typecheck fuel (mkResolved vars
+      (pre ++ SBlob name v sp tvars bfields true :: mid ++
+       SDefinition dname dvar dkind dty (plug_e (EBlob v fields self isp) (SStatementExpression (EBlob v fields self isp) sp0) C) dsp :: post))
+    <> Ok tt.
+Proof. exact ShapesDecl.extern_instance_rejected. Qed.
+
+(* constructing an enum variant that does not exist *)
+Theorem C05_unknown_variant_rejected : forall name ev sp tvars variants variant value vsp,
+  ~ In variant (map fst variants) ->
+  forall pre mid post dname dvar dkind dty (C : ectx) dsp sp0 fuel vars,
+    typecheck fuel (mkResolved vars
+      (pre ++ SEnum name ev sp tvars variants :: mid ++
+       SDefinition dname dvar dkind dty (plug_e (EVariant ev variant value vsp) (SStatementExpression (EVariant ev variant value vsp) sp0) C) dsp :: post))
+    <> Ok tt.
+Proof. exact ShapesDecl.unknown_variant_rejected. Qed.
+
+(* indexing a tuple outside its length; comparing tuples of different lengths *)
+Theorem C05_tuple_index_out_of_range_rejected : forall values sp1 i sp2 sp,
+  (i < 0 \/ Z.of_nat (length values) <= i)%Z ->
+  forall (P : pctx) sp0 fuel vars,
+    (match P with PTop _ _ => False | _ => True end) ->
+    let e := EIndex (ECollection CTuple values sp1) (EInt i sp2) sp in
+    typecheck fuel (mkResolved vars (plug_p e (SStatementExpression e sp0) P)) <> Ok tt.
+Proof. exact ShapesDecl.tuple_index_out_of_range_rejected. Qed.
+
+Theorem C05_tuple_length_mismatch_rejected : forall op xs ys spx spy sp,
+  op = Equals \/ op = NotEquals \/ op = AssertEq -> length xs <> length ys ->
+  forall (P : pctx) sp0 fuel vars,
+    (match P with PTop _ _ => False | _ => True end) ->
+    let e := EBinOp op (ECollection CTuple xs spx) (ECollection CTuple ys spy) sp in
+    typecheck fuel (mkResolved vars (plug_p e (SStatementExpression e sp0) P)) <> Ok tt.
+Proof. exact ShapesDecl.tuple_length_mismatch_rejected. Qed.
+
+(* every instantiation copies the shape of what it instantiates, and touches nothing that existed *)
+Theorem C05_copy_shape : forall g a s r s',
+  wf s -> copy (gfix g) a s = Ok (r, s') ->
+  wf s' /\ frame s s' /\ exists h h', head s a = Some h /\ head s' r = Some h' /\ copy_like h h'.
+Proof. exact TcInv.copy_shape. Qed.
+
 (* ---- non-vacuity *)
 Definition sp0 : span := mkSpan 0 1 1 1 2.
 Definition spl (l : N) : span := mkSpan 0 l l 1 2.
@@ -84,9 +152,36 @@ Example C05_example_start_not_fn :
   = Err (mkErr KMismatch sp0) [].
 Proof. vm_compute. reflexivity. Qed.
 
+(* B :: blob { a: int, b: str } ; start :: fn do B { a: 1 } end  -- missing field *)
+Definition blob_prog (fields : list (string * expr)) : resolved :=
+  mkResolved [mkVar 0 "B" sp0 true Const; mkVar 1 "start" (spl 5) true Const; mkVar 2 "self" (spl 6) false Const]
+    [SBlob "B" 0 sp0 [] [("a", (spl 2, TResolved BInt (spl 2))); ("b", (spl 3, TResolved BStr (spl 3)))] false;
+     SDefinition "start" 1 Const (TImplied (spl 5))
+       (EFunction "lambda" [] (TResolved BVoid (spl 5))
+          [SStatementExpression (EBlob 0 fields 2 (spl 6)) (spl 6)] false (spl 5)) (spl 5)].
+
+Example C05_example_blob_ok :
+  typecheck 60 (blob_prog [("a", EInt 1 (spl 6)); ("b", EStr "x" (spl 6))]) = Ok tt.
+Proof. vm_compute. reflexivity. Qed.
+
+Example C05_example_blob_missing :
+  typecheck 60 (blob_prog [("a", EInt 1 (spl 6))]) = Err (mkErr KMissingField (spl 6)) [].
+Proof. vm_compute. reflexivity. Qed.
+
+Example C05_example_bad_fields : bad_fields ["a"; "b"] ["a"].
+Proof. left. exists "b". split; [cbn; auto|cbn; intros [H|[]]; discriminate]. Qed.
+
 Print Assumptions C05_loop_ctx.
 Print Assumptions C05_break_outside_loop_rejected.
 Print Assumptions C05_break_accepted.
 Print Assumptions C05_start_required.
 Print Assumptions C05_start_wrong_type.
 Print Assumptions C05_decl_stable.
+Print Assumptions C05_blob_established.
+Print Assumptions C05_enum_established.
+Print Assumptions C05_blob_instance_shape_rejected.
+Print Assumptions C05_extern_instance_rejected.
+Print Assumptions C05_unknown_variant_rejected.
+Print Assumptions C05_tuple_index_out_of_range_rejected.
+Print Assumptions C05_tuple_length_mismatch_rejected.
+Print Assumptions C05_copy_shape.
